@@ -1,5 +1,9 @@
 """Canonical text of expression trees (for diagnostics and for structural comparison)."""
+import re as _re
+
 from .facts import strip_targs
+
+_LIT = _re.compile(r"^\(?[-+]?\d+(\.\d+)?\)?$|^true$|^false$|^nullptr$")
 
 BINOPS = {"+", "-", "*", "/", "%", "<", ">", "<=", ">=", "==", "!=", "&&", "||", "&", "|", "^", "<<", ">>",
           "=", "+=", "-=", "*=", "/=", "%=", "&=", "|=", "^=", "<<=", ">>=", ","}
@@ -68,7 +72,18 @@ def pp(n, ren=None, depth=0):
     if k == "un":
         return ("(%s%s)" % (r(c[0]), n["op"])) if n.get("post") else ("(%s%s)" % (n["op"], r(c[0])))
     if k == "bin":
-        return "(%s %s %s)" % (r(c[0]), n["op"], r(c[1]))
+        op = n["op"]
+        a, b = r(c[0]), r(c[1])
+        # canonical spelling of built-in comparisons: `a > b` is printed as `(b < a)`, `a >= b` as `(b <= a)`, and the operands of == / !=
+        # are ordered (literals last, then by text), so that flipping a comparison - a behaviour-preserving edit - does not change the text
+        if op in (">", ">="):
+            return "(%s %s %s)" % (b, "<" if op == ">" else "<=", a)
+        if op in ("==", "!="):
+            ka = (1 if _LIT.match(a) else 0, a.replace("nano::", ""))
+            kb = (1 if _LIT.match(b) else 0, b.replace("nano::", ""))
+            if kb < ka:
+                a, b = b, a
+        return "(%s %s %s)" % (a, op, b)
     if k == "cond":
         return "(%s ? %s : %s)" % (r(c[0]), r(c[1]), r(c[2]))
     if k == "idx":
@@ -130,3 +145,67 @@ def pp(n, ren=None, depth=0):
     if k in ("new", "delete"):
         return "%s(%s)" % (k, ", ".join(r(a) for a in c))
     return "%s{%s}" % (k, ", ".join(r(a) for a in c if a is not None))
+
+
+# ---------------------------------------------------------------------------------------------- canonical form of expected texts
+
+
+def _split_top(s, ops):
+    """position and operator of the first top-level ` op ` (depth 0 w.r.t. brackets) in s"""
+    depth = 0
+    i = 0
+    while i < len(s):
+        ch = s[i]
+        if ch in "([{":
+            depth += 1
+        elif ch in ")]}":
+            depth -= 1
+        elif depth == 0 and ch == " ":
+            for op in ops:
+                if s.startswith(" " + op + " ", i):
+                    return i, op
+        i += 1
+    return None, None
+
+
+def canon_text(s):
+    """rewrites an expected text (written the way pp used to print it) into pp's canonical spelling of comparisons"""
+    out = []
+    i = 0
+    while i < len(s):
+        if s[i] == "(":
+            depth, j = 1, i + 1
+            while j < len(s) and depth:
+                depth += s[j] in "([{"
+                depth -= s[j] in ")]}"
+                j += 1
+            inner = canon_text(s[i + 1:j - 1])
+            pos, op = _split_top(inner, (">=", "<=", "==", "!=", ">", "<"))
+            # only a *binary* group: nothing but the two operands at top level (function-call argument lists contain ", ")
+            if pos is not None and _split_top(inner, ("&&", "||", "?"))[0] is None and ", " not in _strip_nested(inner) and (i == 0 or not (s[i - 1].isalnum() or s[i - 1] in "_>)]")):
+                a, b = inner[:pos], inner[pos + len(op) + 2:]
+                if op in (">", ">="):
+                    a, b, op = b, a, "<" if op == ">" else "<="
+                elif op in ("==", "!="):
+                    ka, kb = (1 if _LIT.match(a) else 0, a.replace("nano::", "")), (1 if _LIT.match(b) else 0, b.replace("nano::", ""))
+                    if kb < ka:
+                        a, b = b, a
+                inner = "%s %s %s" % (a, op, b)
+            out.append("(" + inner + ")")
+            i = j
+        else:
+            out.append(s[i])
+            i += 1
+    return "".join(out)
+
+
+def _strip_nested(s):
+    out, depth = [], 0
+    for ch in s:
+        if ch in "([{":
+            depth += 1
+        elif ch in ")]}":
+            depth -= 1
+        elif depth == 0:
+            out.append(ch)
+    return "".join(out)
